@@ -127,19 +127,37 @@ class LinesearchSolver(NonlinearSolver):
                 if not np.isscalar(ref):
                     ref = ref.ravel()
 
+                scale = ref - ref0
+                lower = upper = None
+
                 if var_lower is not None:
-                    if self._lower_bounds is None:
-                        self._lower_bounds = np.full(len(system._outputs), -np.inf)
                     if not np.isscalar(var_lower):
                         var_lower = var_lower.ravel()
-                    self._lower_bounds[start:end] = (var_lower - ref0) / (ref - ref0)
+                    lower = (var_lower - ref0) / scale
 
                 if var_upper is not None:
-                    if self._upper_bounds is None:
-                        self._upper_bounds = np.full(len(system._outputs), np.inf)
                     if not np.isscalar(var_upper):
                         var_upper = var_upper.ravel()
-                    self._upper_bounds[start:end] = (var_upper - ref0) / (ref - ref0)
+                    upper = (var_upper - ref0) / scale
+
+                # A negative scale factor (ref < ref0) reverses the ordering, so the scaled
+                # lower bound comes from the physical upper bound and vice versa.
+                flip = scale < 0
+                if np.any(flip):
+                    lo = -np.inf if lower is None else lower
+                    hi = np.inf if upper is None else upper
+                    lower = np.where(flip, hi, lo)
+                    upper = np.where(flip, lo, hi)
+
+                if lower is not None:
+                    if self._lower_bounds is None:
+                        self._lower_bounds = np.full(len(system._outputs), -np.inf)
+                    self._lower_bounds[start:end] = lower
+
+                if upper is not None:
+                    if self._upper_bounds is None:
+                        self._upper_bounds = np.full(len(system._outputs), np.inf)
+                    self._upper_bounds[start:end] = upper
 
                 start = end
         else:
